@@ -477,6 +477,194 @@ def r11(ctx, R):
         raise AnalysisError('C19.R11 positive control not detected')
 
 
+CC_SETUP = {'__init__', 'setup', 'dependencies', 'check_parameters', 'prepare_MPI_logical_operations', 'prepare_MPI_datatypes', 'setup_status_variables'}
+CC_RESET = {'reset_status_variables': 'every block', 'reset_buffers_nonMPI': 'every iteration', 'post_run_processing': 'every run'}
+CC_CALLBACKS = {'check_iteration_status', 'get_new_step_size', 'determine_restart', 'pre_iteration_processing', 'post_iteration_processing', 'post_step_processing',
+                'prepare_next_block', 'convergence_control', 'post_spread_processing'}
+# run-time state of convergence controllers that is NOT re-initialised by a reset callback, with the reason it cannot carry
+# information from one step / run into the next (confirmed by reading)
+B7 = {
+    ('AdaptivityForConvergedCollocationProblems', 'res_last_iter'): 'assigned unconditionally at the end of every determine_restart call; the only read is guarded by iter > 0, i.e. it follows the assignment made at iteration 0 of the same step',
+    ('BasicRestartingMPI', 'buffers.max_restart_reached'): 'MPI flavour: computed (first rank) or received before it is read in the same call; by reading only',
+    ('BasicRestartingMPI', 'buffers.restart_earlier'): 'MPI flavour: computed (first rank) or received before it is read in the same call; by reading only',
+    ('CheckIterationEstimatorNonMPI', 'status.diff_old_loc'): 'assigned at iteration 1 of every step, read only at iterations > 1 of the same step',
+    ('CheckIterationEstimatorNonMPI', 'status.diff_first_loc'): 'assigned at iteration 1 of every step, read only at iterations > 1 of the same step',
+    ('EstimateEmbeddedErrorLinearizedMPI', 'buffers.e_em_last'): 'MPI flavour: received or set to 0.0 before it is read in the same call; by reading only',
+    ('EstimateExtrapolationErrorWithinQ', 'coeff.u'): 'extrapolation WITHIN a step: the coefficients are a function of the collocation nodes only (a cache)',
+    ('EstimateExtrapolationErrorWithinQ', 'coeff.f'): 'as coeff.u',
+    ('EstimateExtrapolationErrorWithinQ', 'coeff.prefactor'): 'as coeff.u',
+    ('EstimateExtrapolationErrorNonMPI', 'coeff.prefactor'): 'recomputed together with coeff.u, which is reset at the end of a run (None in coeff.u triggers the recomputation)',
+    ('EstimatePolynomialError', 'interpolation_matrix'): 'cache of a matrix that depends on the collocation nodes only',
+    ('InterpolateBetweenRestarts', 'status.u_inter'): 'written together with perform_interpolation, read only under that flag, which post_spread_processing clears at the start of every block',
+    ('InterpolateBetweenRestarts', 'status.f_inter'): 'as status.u_inter',
+    ('InterpolateBetweenRestarts', 'status.perform_interpolation'): 'set when a step restarts, consumed and cleared in post_spread_processing of the next block (a run cannot end on a restart)',
+    ('InterpolateBetweenRestarts', 'status.skip_interpolation'): 'cleared in post_spread_processing of every block',
+}
+
+
+def _self_state(fn):
+    """run-time state touched by fn: {'a' | 'a.b': how} for stores into self.a / self.a.b (also through subscripts) and
+    in-place container calls on them"""
+    out = {}
+
+    def key(e):
+        while isinstance(e, ast.Subscript):
+            e = e.value
+        parts = []
+        while isinstance(e, ast.Attribute):
+            parts.append(e.attr)
+            e = e.value
+        if isinstance(e, ast.Name) and e.id == 'self' and parts:
+            parts = parts[::-1][:2]
+            if parts[0] in ('params', 'logger'):
+                return None
+            return '.'.join(parts)
+        return None
+
+    for s in ast.walk(fn):
+        tg = s.targets if isinstance(s, ast.Assign) else [s.target] if isinstance(s, (ast.AugAssign, ast.AnnAssign)) else []
+        for t in tg:
+            for e in (t.elts if isinstance(t, (ast.Tuple, ast.List)) else [t]):
+                k = key(e)
+                if k:
+                    fresh = isinstance(s, ast.Assign) and not isinstance(e, ast.Subscript) and not any(key(x) == k for x in ast.walk(s.value) if isinstance(x, ast.Attribute))
+                    out.setdefault(k, []).append('fresh' if fresh else 'update')
+        if isinstance(s, ast.Call) and isinstance(s.func, ast.Attribute) and s.func.attr in ('append', 'extend', 'pop', 'clear', 'update', 'insert', 'add'):
+            k = key(s.func.value)
+            if k:
+                out.setdefault(k, []).append('update')
+    return out
+
+
+def _self_reads(fn):
+    """keys self.a / self.a.b that fn reads, not counting the reads inside a statement that assigns the same key"""
+    def key(e):
+        while isinstance(e, ast.Subscript):
+            e = e.value
+        parts = []
+        while isinstance(e, ast.Attribute):
+            parts.append(e.attr)
+            e = e.value
+        if isinstance(e, ast.Name) and e.id == 'self' and parts:
+            return '.'.join(parts[::-1][:2])
+        return None
+
+    out = set()
+    for st in ast.walk(fn):
+        if not isinstance(st, ast.stmt) or isinstance(st, (ast.FunctionDef, ast.If, ast.For, ast.While, ast.With, ast.Try)):
+            continue
+        own = set()
+        tg = st.targets if isinstance(st, ast.Assign) else [st.target] if isinstance(st, (ast.AugAssign, ast.AnnAssign)) else []
+        for t in tg:
+            for e in (t.elts if isinstance(t, (ast.Tuple, ast.List)) else [t]):
+                k = key(e)
+                if k:
+                    own.add(k)
+        for x in ast.walk(st):
+            if isinstance(x, ast.Attribute) and isinstance(x.ctx, ast.Load):
+                k = key(x)
+                if k and k not in own and not any(k.startswith(o + '.') or o.startswith(k + '.') for o in own):
+                    out.add(k)
+    for x in ast.walk(fn):
+        if isinstance(x, ast.Call) and isinstance(x.func, ast.Name) and x.func.id in ('getattr', 'hasattr') and len(x.args) >= 2 and isinstance(x.args[0], ast.Name) and x.args[0].id == 'self' and isinstance(x.args[1], ast.Constant):
+            # getattr(self, 'k', default) outside the statement that assigns self.k
+            out.add(('getattr', x.args[1].value, id(x)))
+    ga = {t for t in out if isinstance(t, tuple)}
+    out -= ga
+    for _, name, xid in ga:
+        holder = [st for st in ast.walk(fn) if isinstance(st, (ast.Assign, ast.AugAssign)) and any(id(y) == xid for y in ast.walk(st))]
+        tg = {key(t) for st in holder for t in (st.targets if isinstance(st, ast.Assign) else [st.target])}
+        if name not in tg:
+            out.add(name)
+    # conditions of compound statements
+    for st in ast.walk(fn):
+        if isinstance(st, (ast.If, ast.While)):
+            for x in ast.walk(st.test):
+                if isinstance(x, ast.Attribute):
+                    k = key(x)
+                    if k:
+                        out.add(k)
+        if isinstance(st, ast.For):
+            for x in ast.walk(st.iter):
+                if isinstance(x, ast.Attribute):
+                    k = key(x)
+                    if k:
+                        out.add(k)
+    return out
+
+
+def _cc_reach(repo, ci, roots):
+    """methods of ci (MRO-resolved) reachable from the root callbacks through self.<m>(..) calls"""
+    seen, todo = {}, [r for r in roots]
+    while todo:
+        m = todo.pop()
+        if m in seen:
+            continue
+        r = repo.resolve(ci, m)
+        if r is None:
+            continue
+        seen[m] = r
+        for c in ast.walk(r[1]):
+            if isinstance(c, ast.Call) and isinstance(c.func, ast.Attribute) and isinstance(c.func.value, ast.Name) and c.func.value.id == 'self':
+                todo.append(c.func.attr)
+            if isinstance(c, ast.Call) and isinstance(c.func, ast.Attribute) and ast.unparse(c.func.value).startswith('super()'):
+                for b in ci.mro[1:]:
+                    if isinstance(b, ClassInfo) and c.func.attr in b.methods:
+                        seen.setdefault(f'super:{b.name}.{c.func.attr}', (b, b.methods[c.func.attr]))
+    return seen
+
+
+@rule('C19', 'C19.R12', 'convergence controllers live as long as the controller: every piece of instance state that a run-time callback writes is given a fresh value by a reset callback of the same class (reset_status_variables: every block, reset_buffers_nonMPI: every iteration, post_run_processing: every run) or is a tabled entry with the reason it cannot carry information into the next step or run (B7)', floor=20)
+def r12(ctx, R):
+    repo = ctx.repo
+    base = repo.cls('pySDC/core/convergence_controller.py', 'ConvergenceController')
+    used = set()
+    n = 0
+    for ci in repo.subclasses(base):
+        if not repo.is_library(ci):
+            continue
+        run = _cc_reach(repo, ci, CC_CALLBACKS)
+        rst = _cc_reach(repo, ci, CC_RESET)
+        state = {}
+        for m, (owner, fn) in run.items():
+            for k, how in _self_state(fn).items():
+                state.setdefault(k, (owner, fn))
+        if not state:
+            continue
+        fresh = {}
+        for m, (owner, fn) in rst.items():
+            for k, how in _self_state(fn).items():
+                if 'fresh' in how:
+                    fresh.setdefault(k, f'{owner.name}.{fn.name}')
+        reads = set()
+        for m, (owner, fn) in run.items():
+            reads |= _self_reads(fn)
+        for k, (owner, fn) in sorted(state.items()):
+            n += 1
+            w = f'{owner.module.relpath}:{owner.name}.{fn.name}'
+            if not any(r == k or r.startswith(k + '.') or k.startswith(r + '.') for r in reads):
+                R.note(f'{ci.name} :: self.{k} is written at run time but never read by a callback (write-only state cannot influence a result)', w, 'no read outside its own update')
+                continue
+            R.fn(w)
+            c = f'{ci.name} :: self.{k} (written by {owner.name}.{fn.name}) is re-initialised by a reset callback'
+            hit = fresh.get(k) or next((v for kk, v in fresh.items() if k.startswith(kk + '.')), None)
+            tab = next(((cn, k2) for (cn, k2) in B7 if k2 == k and any(isinstance(b, ClassInfo) and b.name == cn for b in ci.mro)), None)
+            if hit:
+                R.ok(c, w, found=f'fresh value assigned in {hit}')
+            elif tab:
+                used.add(tab)
+                R.exc(c, w, B7[tab])
+            else:
+                R.bad(c, w, 'a fresh assignment in reset_status_variables / reset_buffers_nonMPI / post_run_processing (or a B7 entry with the reason)', f'written in {owner.name}.{fn.name}; no reset callback of {ci.name} assigns it')
+    missing = set(B7) - used
+    if missing:
+        raise AnalysisError(f'C19.R12: tabled convergence-controller state not found any more: {sorted(missing)}')
+    # positive control
+    pc = ast.parse('class K:\n    def post_iteration_processing(self, controller, S):\n        self.hist.t[0] = S.time\n        self.seen.append(S.time)\n').body[0].body[0]
+    if set(_self_state(pc)) != {'hist.t', 'seen'}:
+        raise AnalysisError('C19.R12 positive control not detected')
+
+
 def multistep_reset(ctx, R):
     repo = ctx.repo
     # the one tabled history is reset when a new integration starts
